@@ -144,9 +144,10 @@ func c20Run(ops []c20Op, hist []int) verifx.SearchResult {
 			if dl0 := st.store[sid(op.s)][tid(op.t)]; dl0 != nil {
 				firstBefore = dl0.first
 			}
+			seq := st.After(ctx, sid(op.s), tid(op.t), idx)
 			func() {
 				defer func() { panicked = recover() }()
-				for d, err := range st.After(ctx, sid(op.s), tid(op.t), idx) {
+				for d, err := range seq {
 					n++
 					if err != nil {
 						gerr = err
@@ -168,6 +169,27 @@ func c20Run(ops []c20Op, hist []int) verifx.SearchResult {
 			}()
 			if panicked != nil {
 				return bad("panic in after", "step %d %s panicked: %v", step, op.display, panicked)
+			}
+			if !op.during && gerr == nil {
+				// the iterator is a value: ranging over it again, with nothing changed in between,
+				// yields the same payloads
+				var again [][]byte
+				var aerr error
+				for d, err := range seq {
+					if err != nil {
+						aerr = err
+						break
+					}
+					again = append(again, append([]byte{}, d...))
+				}
+				if aerr != nil || len(again) != len(got) {
+					return bad("after-iterator-not-reusable", "%s: ranging over the returned iterator a second time yielded %d items (error %v), the first time %d", op.display, len(again), aerr, len(got))
+				}
+				for i := range got {
+					if string(got[i]) != string(again[i]) {
+						return bad("after-iterator-not-reusable", "%s: second ranging item %d = %q, first %q", op.display, i, again[i], got[i])
+					}
+				}
 			}
 			if partial {
 				return bad("after-partial-then-error", "%s yielded %d items and then error %v", op.display, n-1, gerr)
